@@ -19,7 +19,9 @@ use super::{
 use crate::array::DataChunk;
 use crate::catalog::find_sort_key_id;
 use crate::storage::secondary::statistics::create_statistics_global_aggregator;
-use crate::storage::{ScanOptions, StorageColumnRef, StorageResult, Transaction};
+use crate::storage::{
+    ScanOptions, StorageColumnRef, StorageResult, TracedStorageError, Transaction,
+};
 use crate::types::DataValue;
 
 /// A transaction running on `SecondaryStorage`.
@@ -145,6 +147,20 @@ impl SecondaryTransaction {
                 .push(DeleteRecord {
                     row_id: delete.row_id(),
                 });
+        }
+
+        // The rows to delete were located through a snapshot that may have been taken before
+        // this txn acquired the table lock. If a compaction replaced one of those RowSets in the
+        // meantime, the delete vector would refer to a RowSet that no longer exists and the
+        // deletion would be silently lost. Detect the conflict and fail instead.
+        if !delete_split_map.is_empty() {
+            let latest = self.version.pin();
+            let live = latest.snapshot.get_rowsets_of(self.table.table_id());
+            for rowset_id in delete_split_map.keys() {
+                if !live.is_some_and(|live| live.contains(rowset_id)) {
+                    return Err(TracedStorageError::not_found("rowset", *rowset_id));
+                }
+            }
         }
 
         let rowsets = std::mem::take(&mut self.to_be_committed_rowsets);
